@@ -52,6 +52,14 @@ pub mod runtime {
                 Err(TryCurrentError)
             }
         }
+        /// spawns onto "the" runtime of the model
+        pub fn spawn<F>(&self, future: F) -> crate::task::JoinHandle<F::Output>
+        where
+            F: Future + Send + 'static,
+            F::Output: Send + 'static,
+        {
+            crate::task::spawn(future)
+        }
         pub fn current() -> Handle {
             Handle::try_current().expect("there is no reactor running, must be called from the context of a Tokio 1.x runtime")
         }
